@@ -20,6 +20,7 @@ Shapes ==
   { sh \in [lay : Lays, appLen : AppLens, flags : {"plain", "auth", "enc"}, cfgKind : {"none", "dcd", "xmcd"},
             fast : BOOLEAN, extra : {0, 1}, imgTgt : (IF Full THEN 2..5 ELSE {2, 5})] :
       /\ (sh.flags = "plain" => ~sh.fast /\ sh.extra = 0 /\ sh.imgTgt = 2)
+      /\ (~Full /\ sh.flags # "plain" => sh.extra = 1)
       /\ (sh.fast => sh.imgTgt = 2)
       /\ (sh.cfgKind = "xmcd" => sh.lay.ils - sh.lay.ivtOff >= 3072) }
 
@@ -95,7 +96,7 @@ Events(sh, t, m) ==
       sec == [ev |-> "InstallKey", len |-> 12, pcl |-> 187, flg |-> 1, src |-> 0, tgt |-> 0, loc |-> A(sh, csfAt + CsfSpan)]
       dec == [ev |-> "Authenticate", len |-> 20, pcl |-> 163, flg |-> 0, key |-> 0, blocks |-> eblocks, dataLen |-> SumN(eblocks, 1),
               dat |-> mcAt, macTag |-> 172, macLen |-> mcLen, nonceLen |-> 13, macBytes |-> 16, dekLen |-> 32,
-              macOk |-> ~(t \in {"mac", "app"}), plainOk |-> t # "app"]
+              macOk |-> ~(t \in {"mac", "app"}), plainOk |-> t # "app", dekKept |-> TRUE, nonceKept |-> TRUE]
       ext == [ev |-> "Cmd", tag |-> 178, len |-> 8, par |-> 0]
       core == << srk >> \o (IF hasCsfk THEN << csfk >> ELSE << >>)
       auth1 == IF m = "dataBeforeCsfAuth"
@@ -109,7 +110,7 @@ Events(sh, t, m) ==
       endev == [ev |-> "CsfEnd", at |-> csfAt + csfLen]
       pb == [ev |-> "ParseBack", ok |-> TRUE, self |-> ivt.self, bd |-> ivt.bd, dcd |-> ivt.dcd, csf |-> ivt.csf, entry |-> ivt.entry,
              bdStart |-> bd.start, bdLen |-> bd.len, plugin |-> 0, flags |-> FlagWord(sh.flags),
-             hasDcd |-> sh.cfgKind = "dcd", hasXmcd |-> sh.cfgKind = "xmcd", hasCsf |-> ~plain, appAt |-> L.app,
+             hasDcd |-> sh.cfgKind = "dcd", hasXmcd |-> sh.cfgKind = "xmcd", hasCsf |-> ~plain, appAt |-> L.app, cStart |-> Start, cIvtOff |-> p.ivtOff,
              nCmds |-> IF plain THEN 0 ELSE Len(cmds0), ivtEq |-> TRUE, bdEq |-> TRUE, cfgEq |-> TRUE, appEq |-> TRUE, csfEq |-> TRUE, reexpEq |-> TRUE]
   IN << ivt, bd >> \o cfg \o << app >> \o (IF plain THEN << >> ELSE << hdr >> \o cmds \o << endev >>)
      \o << [ev |-> "Accept"], pb >>
